@@ -12,8 +12,13 @@ META = dict(
     level_text=('Theorems in coq/C03/Props.v about the executable model of basic_device/output_device/async_io_buf, copy_buf, '
                 'connection::write/nonblocking_write/async_write(+handler) and format_output of the three protocols: for every accept '
                 'schedule wire ++ pending = concatenation of the formatted writes and nothing stays pending at completion; the devices '
-                'emit exactly the bytes written (no shrinking setbuf in full buffering mode: that case is refuted, see findings); '
-                'unchunk(chunked framing)=body, unrecord(FastCGI framing)=body for all lengths; the header block is emitted once. '
+                'emit exactly the bytes written for every sequence of write/put/flush/setbuf(any size)/full_buffering operations; '
+                'unchunk(chunked framing)=body, unrecord(FastCGI framing)=body for all lengths; the header block is emitted once; '
+                'end to end (script -> copy_buf -> device -> connection -> socket) the wire is header block + correctly framed body = '
+                'bytes written, unconditionally for asynchronous responses (any would-block/short-write schedule) and for synchronous '
+                'responses on a socket that never reports would-block (with a declared Content-Length: as long as the body fits); every '
+                'header/cookie set before the first output is a line of the block; the page-cache copy equals the body; gzip_buf (zlib '
+                'abstract under its contract) finalises exactly once and what reaches the socket inflates to the bytes written. '
                 'The model is tied to the code by running the extracted model and a real cppcms::service (HTTP/1.0, HTTP/1.1, keep-alive, '
                 'SCGI, FastCGI; synchronous and asynchronous applications) on the same response scripts and accept schedules and comparing '
                 'the exact wire bytes and the (offered, accepted) sizes of every writev call; an independent oracle de-frames the wire and '
@@ -21,7 +26,8 @@ META = dict(
     level_note=('Trusted: Coq kernel; hand transcription of src/http_response.cpp, src/cgi_api.cpp and the format_output functions (tied by '
                 'exact wire + writev-trace correspondence, constants by cxx2v where listed); ExtrOcamlBasic extraction; '
                 'harness/C03_service.cpp (writev/accept interposition, response-script application); libstdc++ streambuf::xsputn '
-                'behaviour as transcribed; gzip and raw io modes are covered by the oracle only (zlib is not modelled).'),
+                'behaviour as transcribed; gzip_buf is modelled by hand (coq/C03/GzipDefs.v) with zlib as universally quantified parameters '
+                'under its contract, tied to the code by the oracle only (gzip bodies are decompressed and compared); raw io modes are oracle only.'),
 )
 
 GEN = {
@@ -140,19 +146,16 @@ def make_case(proto, reqs, sched, rid=1):
 # ---------------------------------------------------------------------------- what the script means (independent of the model)
 def expected_of(x, cache):
     """(body the application wrote, dict of lower-case header name -> value set by the script, cookie lines, status or None,
-    shrink_hazard) ; cache: dict key -> body for page-cache hits inside this case"""
+    erased default headers) ; cache: dict key -> body for page-cache hits inside this case"""
     body = bytearray()
     off = 0
     hdrs = {}
     cookies = []
     status = None
     out = False
-    is_async = x['app'] == '/aresp'
-    full = True
-    buffered = 0
-    hazard = False
     store = None
     hit = False
+    mode_seen = False
     erased = set()
     raw = any(o in ('m2', 'm4') for o in x['ops'])
     for o in x['ops']:
@@ -164,26 +167,11 @@ def expected_of(x, cache):
             body += pattern(off, n)
             off += n
             out = True
-            buffered += n
         elif k == 'r':
             body += unhx(a)
             out = True
-            buffered += len(unhx(a))
         elif k == 'f':
             out = True
-            if not (is_async and full):
-                buffered = 0
-        elif k == 'a':
-            if is_async:
-                buffered = 0
-        elif k == 'u':
-            full = (a == '1')
-        elif k == 'b':
-            n = int(a)
-            if n < 0:
-                n = DEFBUF[x['app']]
-            if is_async and full and out and n < buffered:
-                hazard = True
         elif k == 'h':
             kk, vv = a.split(':')
             if not out:
@@ -203,11 +191,17 @@ def expected_of(x, cache):
             if not out:
                 cookies.append(unhx(kk) + b'=' + unhx(vv))
         elif k == 'c':
-            if a in cache:
-                body += cache[a]
+            # cache_interface::fetch_page keys the page by need_gzip() at this moment ("_Z:" / "_U:" + key): Accept-Encoding,
+            # synchronous normal io mode, Content-Type text/* as set so far
+            ct = hdrs.get(b'content-type', b'' if b'content-type' in erased else b'text/html')
+            zkey = (bool(x.get('gzip')) and x['app'] == '/resp' and not mode_seen and ct.startswith(b'text/'), a)
+            if zkey in cache:
+                body += cache[zkey]
                 hit = True
                 break
-            store = a
+            store = zkey
+        elif k == 'm':
+            mode_seen = True
     if store is not None and not hit:
         cache[store] = bytes(body)
     if raw:
@@ -220,7 +214,7 @@ def expected_of(x, cache):
             if n:
                 hdrs[n.strip().lower()] = v.strip()
         erased = {k.lower() for k, _ in G.base}
-    return bytes(body), hdrs, cookies, status, hazard, erased
+    return bytes(body), hdrs, cookies, status, erased
 
 
 def deframe(proto, x, raw):
@@ -276,7 +270,7 @@ def deframe(proto, x, raw):
 
 
 def check_response(proto, x, raw, cache):
-    body_exp, hdrs_exp, cookies_exp, status_exp, hazard, erased = expected_of(x, cache)
+    body_exp, hdrs_exp, cookies_exp, status_exp, erased = expected_of(x, cache)
     prob, st, hdrs, body = deframe(proto, x, raw)
     if prob:
         return (prob, 'response is not correctly framed: ' + prob)
@@ -292,8 +286,6 @@ def check_response(proto, x, raw, cache):
         i = next((j for j in range(min(len(body), len(body_exp))) if body[j] != body_exp[j]), min(len(body), len(body_exp)))
         desc = 'body differs from what the application wrote: %d bytes received, %d written, first difference at offset %d' % (
             len(body), len(body_exp), i)
-        if hazard:
-            return ('async-full-buffering-setbuf-shrink', desc + ' (response().setbuf(n) with n below the buffered amount in fully buffered asynchronous mode)')
         return ('body-not-faithful-' + proto, desc)
     # headers: exactly one block (a second one would be part of the body), every header of the script present once
     names = [n.lower() for n, _ in hdrs if n.lower() != b'set-cookie']
@@ -415,8 +407,9 @@ def rnd_sizes(rng, cap):
     return base, near
 
 
-def rnd_body_ops(rng, is_async, cap0, big=False, allow_hazard=False):
-    """ops after the header ops. cap0 = initial buffer size"""
+def rnd_body_ops(rng, is_async, cap0, big=False):
+    """ops after the header ops. cap0 = initial buffer size.  setbuf sizes below the amount currently buffered in fully
+    buffered asynchronous mode (0 included) are part of the regular stream: that class was a defect until /repo 00eb9d4"""
     ops = []
     cap = cap0
     full = True
@@ -447,12 +440,10 @@ def rnd_body_ops(rng, is_async, cap0, big=False, allow_hazard=False):
                 buffered = 0
         elif k < 0.85:
             n = rng.choice([0, 1, 2, 7, 8, 16, 64, 100, 127, 128, 129, 1024, 4096, -1])
+            if buffered > 0 and rng.random() < 0.35:
+                # aimed at the repaired class: at / just below / just above the buffered amount
+                n = max(0, rng.choice([buffered - 1, buffered, buffered + 1, buffered // 2, 0, 1]))
             eff = cap0 if n < 0 else n
-            if is_async and full and out and eff < buffered and not allow_hazard:
-                # known finding class (see docs/C03.md): kept out of the regular stream
-                continue
-            if is_async and full and out and eff < buffered and n == 0:
-                continue
             ops.append('b%d' % n)
             cap = eff
         elif k < 0.93:
@@ -562,6 +553,29 @@ def gen_cases(ctx):
         else:
             # two connections: two cases would not share the key -> put both on one case only for kept-alive protocols; otherwise miss only
             cases.append(make_case(proto, [r1], sched))
+    # 3b. page cache with gzip: compressed pages are cached under their own key ("_Z:"): miss + hit with gzip (the hit sends the
+    #     cached compressed stream with Content-Encoding: gzip), and the same key requested with and without gzip (two entries)
+    for i in range(ctx.scale(60, 600)):
+        proto, h11, ka = rng.choice([('http', True, True), ('http', False, True), ('fcgi', True, False)])
+        k = key()
+        g1, g2 = rng.choice([(True, True), (True, True), (True, False), (False, True)])
+        pre = [o for o in rnd_header_ops(rng) if not o.startswith('h' + hx(b'Content-Type')) and not o.startswith('h' + hx(b'CONTENT-TYPE'))]
+        ops = pre + ['c' + k]
+        for _ in range(rng.randint(1, 5)):
+            r = rng.random()
+            if r < 0.75:
+                ops.append('w%d' % rng.choice([0, 1, 5, 127, 128, 129, 255, 256, 257, 1000, 3000, 20000]))
+            elif r < 0.85:
+                ops.append('p%d' % rng.choice([1, 2, 130]))
+            else:
+                ops.append('f')
+        r1 = Rq('/resp', ops, h11, ka, gzip=g1)
+        app2 = '/resp' if rng.random() < 0.8 else '/aresp'
+        r2 = Rq(app2, ['c' + k, 'w5'], h11, ka, gzip=g2)
+        reqs = [r1, r2]
+        if rng.random() < 0.4:
+            reqs.append(Rq('/resp', ['c' + k, 'w7'], h11, ka, gzip=rng.random() < 0.5))
+        cases.append(make_case(proto, reqs, rnd_sched(rng, False, [100, G.hdrlen])))
     # 4. FastCGI record boundaries, multi-entry gather buffers split across records, big bodies on all protocols
     sizes = [65535 - G.hdrlen - 1, 65535 - G.hdrlen, 65535 - G.hdrlen + 1, 65535, 65536, 131070 - G.hdrlen, 131070 - G.hdrlen + 1, 131070, 131071, 200 * 1024]
     for n in sizes if not ctx.quick() else rng.sample(sizes, 6):
@@ -574,6 +588,14 @@ def gen_cases(ctx):
                     ops = ['u0'] + ops
                 sched = rnd_sched(rng, app == '/aresp', [65535, 65536, 65543, 65544, n])
                 cases.append(make_case(proto, [Rq(app, ops, h11, ka)], sched))
+    # exact FastCGI record boundaries inside ONE format_output call (reminder == max_packet_len and neighbours), with and
+    # without the header block in front: synchronous device writes an oversized xsputn straight through, the fully
+    # buffered asynchronous device hands everything over at close (completing write)
+    for total in (65534, 65535, 65536, 131070, 131071):
+        cases.append(make_case('fcgi', [Rq('/resp', ['w%d' % (total - G.hdrlen)])], []))
+        cases.append(make_case('fcgi', [Rq('/resp', ['w1', 'f', 'w%d' % total, 'w3'])], [65543, 8]))
+        cases.append(make_case('fcgi', [Rq('/aresp', ['w%d' % (total - G.hdrlen)])], [0, 65535]))
+        cases.append(make_case('fcgi', [Rq('/aresp', ['u0', 'b0', 'w1', 'w%d' % total, 'w2'])], []))
     # more than 16 gather entries in one write: stream_socket::writev truncates the iovec (natural short write)
     for app in ('/resp', '/aresp'):
         cases.append(make_case('fcgi', [Rq(app, ['b0', 'w10', 'w%d' % (5 * 65535 + 7)])], [] if app == '/resp' else [0, 100000]))
@@ -598,15 +620,71 @@ def gen_cases(ctx):
             ops = [mode, 'r' + hx(hdr[:cut]) if cut else 'f', 'r' + hx(hdr[cut:]) if cut < len(hdr) else 'f'] + \
                 [o for o in rnd_body_ops(rng, app == '/aresp', DEFBUF[app]) if o[0] in 'wpfa']
             cases.append(make_case(proto, [Rq(app, ops, h11, ka)], rnd_sched(rng, app == '/aresp', [100])))
-    # 6. witnesses of the known finding (shrinking setbuf in fully buffered asynchronous mode)
-    for proto, h11, ka in (('http', True, True), ('scgi', True, False), ('fcgi', True, False)):
-        cases.append(make_case(proto, [Rq('/aresp', ['w100', 'b10', 'w100'], h11, ka)], []))
-        cases.append(make_case(proto, [Rq('/aresp', ['w300', 'b1', 'w1', 'a', 'w5'], h11, ka)], [3, 0, 7]))
+    # 6. regression of the repaired defect (/repo 00eb9d4): setbuf below the buffered amount in fully buffered asynchronous
+    #    mode, followed by output that grows the vector (write / put), by an asynchronous flush, by switching full
+    #    buffering off (which applies the remembered size: flush when the content exceeds it) and on again
+    for c in shrink_cases(rng, ctx.scale(150, 1500)):
+        cases.append(c)
     return cases
 
 
-def raw_expected_fix(x):
-    return x
+def shrink_witnesses():
+    """fixed witnesses (also stored in corpus/C03/shrink.case)"""
+    init_consts()
+    cases = []
+    for proto, h11, ka in (('http', True, True), ('scgi', True, False), ('fcgi', True, False)):
+        cases.append(make_case(proto, [Rq('/aresp', ['w100', 'b10', 'w100'], h11, ka)], []))
+        cases.append(make_case(proto, [Rq('/aresp', ['w300', 'b1', 'w1', 'a', 'w5'], h11, ka)], [3, 0, 7]))
+        cases.append(make_case(proto, [Rq('/aresp', ['w5', 'b0', 'p3', 'f', 'w70', 'b0', 'a', 'b0', 'w1'], h11, ka)], [1, 0, 2]))
+        cases.append(make_case(proto, [Rq('/aresp', ['b8', 'w64', 'b3', 'u0', 'w2', 'w2', 'u1', 'w9', 'b2', 'p70'], h11, ka)], [5, 0, 0, 9]))
+    return cases
+
+
+def shrink_cases(rng, count):
+    protos = [('http', True, False), ('http', True, True), ('http', False, False), ('http', False, True), ('scgi', True, False), ('fcgi', True, False)]
+    cases = shrink_witnesses()
+    for _ in range(count):
+        proto, h11, ka = rng.choice(protos)
+        ops = []
+        if rng.random() < 0.4:
+            ops.append('b%d' % rng.choice([0, 1, 8, 63, 64, 65, 128]))
+        if rng.random() < 0.15:
+            ops.append('c' + 'k%x' % rng.getrandbits(48))
+        buffered = 0
+        full = True
+        for _ in range(rng.randint(2, 8)):
+            r = rng.random()
+            if r < 0.4:
+                n = rng.choice([1, 2, 3, 5, 63, 64, 65, 100, 127, 128, 129, 255, 256, 257, 1023, 1024, 1025, 2049, rng.randint(1, 5000)])
+                ops.append(('p%d' % n) if (n <= 300 and rng.random() < 0.3) else ('w%d' % n))
+                buffered += n
+            elif r < 0.75:
+                n = max(0, rng.choice([0, 1, buffered - 1, buffered, buffered + 1, buffered // 2, buffered // 2 + 1, 63, 64, 65]))
+                ops.append('b%d' % n)
+            elif r < 0.83:
+                ops.append('f')
+                if not full:
+                    buffered = 0
+            elif r < 0.91:
+                ops.append('a')
+                buffered = 0
+            else:
+                full = not full
+                ops.append('u%d' % (1 if full else 0))
+        ops.append(rng.choice(['w1', 'p2', 'w64', 'w1025', 'f']))
+        sched = rnd_sched(rng, True, [G.hdrlen, buffered])
+        cases.append(make_case(proto, [Rq('/aresp', ops, h11, ka)], sched, rid=rng.choice([1, 2, 65535])))
+    return cases
+
+
+def asan_eligible(case):
+    """cases for the sanitizer pass: no zero-size put area and no zero-length write (see run())"""
+    xs = parse_x(case) or []
+    for x in xs:
+        for o in x['ops']:
+            if o in ('b0', 'w0', 'p0', 'r', ''):
+                return False
+    return True
 
 
 def run(ctx):
@@ -627,7 +705,9 @@ def run(ctx):
         'libstdc++ basic_streambuf::xsputn / sputc semantics as transcribed in cpy_xsputn']
     ctx.assumptions = ['kernel delivers socket bytes in order and writev on the connection is the only write path (stream_socket::writev)',
                        'header names and values in generated scripts are ASCII tokens (char comparison is signed in http::protocol::compare)',
-                       'zlib is trusted: gzip responses are checked by decompressing with Python zlib (oracle only)',
+                       'zlib is trusted: gzip responses are checked by decompressing with Python zlib (oracle); in Coq zlib is a parameter of the '
+                       'gzip theorems under its contract (NO_FLUSH/SYNC_FLUSH calls ended by one FINISH call inflate to the concatenated input)',
+                       'sync_*_live theorems: the blocking socket never reports would-block (every accept-schedule entry is positive)',
                        'the application respects the API contract: no output while an asynchronous flush is in flight, cache().fetch_page before the first output']
     exe, err = vlib.build_harness('C03_service', ['C03_service.cpp'], extra=['-ldl'])
     if not exe:
@@ -643,9 +723,28 @@ def run(ctx):
         'cookies / content_length / status / page cache / async_flush_output) in the synchronous or asynchronous application. Generated: grid of '
         'single writes around the buffer cap x 6 protocol variants x sync/async x 3 schedules; random scripts with sizes aimed at buffer caps, '
         'copy_buf doubling points (128*2^k), 65535/65536 and header-adjusted FastCGI record boundaries, bodies to 200 KiB; page-cache miss+hit; '
-        'gzip and raw io modes (oracle only). Non-trivial = the response needed at least two writev calls; distinct = distinct case lines.')
+        'asynchronous scripts with setbuf below / at / above the buffered amount in full buffering mode (repaired class); gzip and raw io modes (oracle only). Non-trivial = the response needed at least two writev calls; distinct = distinct case lines.')
     os.makedirs(ctx.workdir, exist_ok=True)
     model_cmd = ['bash', '-c', 'ulimit -s unlimited 2>/dev/null || ulimit -s 1000000; exec "$0"', mexe] if mexe else None
     vlib.differential(ctx, cases, exe, model_cmd, oracle, nontrivial, classify,
                       impl_env={'FE_WORKDIR': ctx.workdir, 'LC_ALL': 'C', 'LANG': 'C'},
                       canon_case=canon_impl, jobs=8)
+    # thorough tier (and replays): the same cases once more through an AddressSanitizer/UBSan build of the library, oracle only.
+    # A memory error in the anchored code aborts the service: reported as service-crash with the case as replay.
+    if not ctx.quick() or ctx.replay_cases is not None:
+        ok, err = vlib.build_repo(asan=True)
+        if not ok:
+            ctx.broke('sanitizer build of /repo working tree failed', err)
+            return
+        aexe, err = vlib.build_harness('C03_service', ['C03_service.cpp'], asan=True, extra=['-ldl'])
+        if not aexe:
+            ctx.broke('sanitizer harness build failed', err)
+            return
+        acases = [c for c in cases if asan_eligible(c)]
+        ctx.coverage['sanitizer_pass'] = ('%d of the cases re-run under -fsanitize=address,undefined (oracle only); excluded: scripts with setbuf(0) or '
+                                          'zero-length writes (memcpy(NULL, s, 0) in basic_device::xsputn / async_io_buf::xsputn is reported by UBSan as '
+                                          'nonnull-attribute: benign, not a property violation)' % len(acases))
+        if acases:
+            vlib.differential(ctx, acases, aexe, None, oracle, nontrivial, lambda c, o: 'asan:' + classify(c, o),
+                              impl_env={'FE_WORKDIR': ctx.workdir, 'LC_ALL': 'C', 'LANG': 'C', 'ASAN_OPTIONS': 'detect_leaks=0'},
+                              what='sanitizer pass', canon_case=canon_impl, jobs=8)
